@@ -4,7 +4,7 @@ import gc
 import itertools
 
 from . import _c17_cases as C
-from ._c17_cases import S, data, other, mod, lens_for, family, HarnessBug, BLOCK, KEYLEN
+from ._c17_cases import S, data, other, mod, lens_for, family, HarnessBug, BLOCK, KEYLEN, pls
 
 # ---------------------------------------------------------------------------------------------------
 # hashes, XOFs, MACs
@@ -121,10 +121,10 @@ class Hash(object):
                 for L in lens:
                     if L > 8193 and pre and block != 8192:
                         continue
-                    for pl in "ES":
+                    for pl in pls(L):
                         out.append(("hash", name, "U", pre, L, pl))
             for L in lens:
-                for pl in "ES":
+                for pl in pls(L):
                     out.append(("hash", name, "N", 0, L, pl))
             b = block if block < 1000 else 168
             for L1 in (0, 1, b - 1, b, b + 1):
@@ -446,14 +446,14 @@ class Misc(object):
         out = []
         if part == "strxor":
             for L in lens_for(tier, 16, big=True):
-                for pl in "ES":
+                for pl in pls(L):
                     for v in ("r", "o", "p", "a", "b", "same", "v", "w", "big", "small", "m1", "m2"):
                         if L > 8193 and v in ("p", "v", "w", "m1", "m2", "big", "small"):
                             continue
                         out.append(("misc", "strxor", L, v, pl))
         elif part == "strxor_c":
             for L in lens_for(tier, 16, big=True):
-                for pl in "ES":
+                for pl in pls(L):
                     for v in ("r", "o", "p", "a", "v", "w", "big", "small"):
                         for c in ((0, 255) if L <= 64 else (0x5A,)):
                             out.append(("misc", "strxor_c", L, v, c, pl))
@@ -489,6 +489,9 @@ class Misc(object):
             # Crypto.Cipher._EKSBlowfish (the seam below bcrypt): key 1..72 (+ illegal), salt lengths, cost, invert.
             # key length 0 is excluded: blowfish.c xorP() then loops forever without touching memory (reported as an
             # observation by the driver, it is not a memory-safety matter)
+            # the empty salt first (on the pinned tree the child dies here: see the driver's report)
+            for pl in "ES":
+                out.append(("misc", "eks", 8, 0, 2, 1, pl))
             for klen in range(1, 76):
                 for inv in (0, 1):
                     for pl in "ES":
@@ -504,9 +507,6 @@ class Misc(object):
             # other chaining modes over the same base cipher (some refuse: the base cipher is then released again)
             for m in range(0, 15):
                 out.append(("misc", "eks_mode", 8, 16, 1, m, "E"))
-            # the empty salt comes last: one case per placement
-            for pl in "ES":
-                out.append(("misc", "eks", 8, 0, 2, 1, pl))
         elif part == "pkcs1":
             r = shard[2]
             ems = list(range(0, 41)) + ([64, 128, 256] if not th else [63, 64, 65, 127, 128, 129, 255, 256, 257, 512])
